@@ -763,6 +763,14 @@ func GenProgram(r *Rng, pkg string, nExec, nRaw int) *GProg {
 	for i := 0; i < nRaw; i++ {
 		p.Funcs = append(p.Funcs, GenRawFunc(r.Fork(), fmt.Sprintf("Raw%02d", i), r.Intn(8), imps))
 	}
+	// every recursive function is also referenced from a second function (a public wrapper around a
+	// self-recursive helper): a reference to F from inside F and from outside must not interfere
+	for _, f := range append([]*GFunc{}, p.Funcs...) {
+		if f.Family == "recursion" {
+			p.Funcs = append(p.Funcs, &GFunc{Name: "Wrap" + f.Name, Family: "wrapper", Params: []GParam{{"n", TInt}}, Results: []GType{TInt},
+				Body: []GStmt{SRaw{"return §" + f.Name + "§(§n§) + 1"}}})
+		}
+	}
 	for k := range imps {
 		p.Imports = append(p.Imports, k)
 	}
